@@ -234,6 +234,7 @@ def gen_case(rng, k):
             S[n].append(" -isotope 13C %s 1.0" % fmt(rng.uniform(-20, 0)))
             S[n].append(" -isotope 34S %s" % fmt(rng.uniform(0, 20)))
     for n in range(1, nsol + 1):
+        has_ss = rng.random() < 0.35
         if rng.random() < 0.55:
             meta["kinds"].add("exchange")
             L.append("EXCHANGE %d" % n)
@@ -267,6 +268,8 @@ def gen_case(rng, k):
             meta["kinds"].add("pp")
             L.append("EQUILIBRIUM_PHASES %d" % n)
             for ph, pr in (("Calcite", 0.8), ("Dolomite", 0.3), ("Gypsum", 0.4), ("Quartz", 0.2)):
+                if has_ss and ph in ("Calcite", "Dolomite"):
+                    continue        # (a CaCO3 polymorph as pure phase next to the aragonite solid solution does not converge)
                 if rng.random() < pr:
                     L.append(" %s %s %s%s" % (ph, fmt(rng.choice([0, 0, 0.2, -0.3])), fmt(rng.choice([0, 0.001, 0.1, 10])),
                                               rng.choice(["", "", " dissolve_only", " precipitate_only"]) if rng.random() < 0.3 else ""))
@@ -290,7 +293,7 @@ def gen_case(rng, k):
                 L.append(" N2(g) %s" % fmt(rng.uniform(0.1, 0.8)))
             if rng.random() < 0.3:
                 L.append(" CH4(g) %s" % fmt(rng.uniform(0.0, 0.01)))
-        if rng.random() < 0.35:
+        if has_ss:
             meta["kinds"].add("ss")
             if not any(x.startswith(" Sr ") for x in S[n]):
                 S[n].append(" Sr %s" % fmt(rng.uniform(0.01, 1)))      # (without Sr the solid solution does not converge)
